@@ -131,6 +131,14 @@ func verifMagnitude(a interface{}) (mag uint64, neg bool, ok bool) {
 	return 0, false, false
 }
 
+// The property demands "a fixed marker" for each missing, surplus or wrongly-typed argument: the
+// marker texts are read once from the package's own tables (data, not code).
+var (
+	verifMarkMissing   = append([]byte(nil), errMissingArg...)
+	verifMarkWrongType = append([]byte(nil), errWrongArgType...)
+	verifMarkExtra     = append([]byte(nil), errExtraArg...)
+)
+
 func verifRefRender(pieces []verifPiece, args []interface{}) []byte {
 	var out []byte
 	ai := 0
@@ -142,7 +150,7 @@ func verifRefRender(pieces []verifPiece, args []interface{}) []byte {
 			out = append(out, '%')
 		case 2:
 			if ai >= len(args) {
-				out = append(out, "(MISSING)"...)
+				out = append(out, verifMarkMissing...)
 				continue
 			}
 			a := args[ai]
@@ -151,7 +159,7 @@ func verifRefRender(pieces []verifPiece, args []interface{}) []byte {
 			case 'd', 'x', 'o':
 				mag, neg, ok := verifMagnitude(a)
 				if !ok {
-					out = append(out, "%!(WRONGTYPE)"...)
+					out = append(out, verifMarkWrongType...)
 					continue
 				}
 				base := map[byte]int{'d': 10, 'x': 16, 'o': 8}[p.verb]
@@ -192,7 +200,7 @@ func verifRefRender(pieces []verifPiece, args []interface{}) []byte {
 				case []byte:
 					s = v
 				default:
-					out = append(out, "%!(WRONGTYPE)"...)
+					out = append(out, verifMarkWrongType...)
 					continue
 				}
 				if uint64(len(s)) < p.width {
@@ -207,13 +215,13 @@ func verifRefRender(pieces []verifPiece, args []interface{}) []byte {
 						out = append(out, "false"...)
 					}
 				} else {
-					out = append(out, "%!(WRONGTYPE)"...)
+					out = append(out, verifMarkWrongType...)
 				}
 			}
 		}
 	}
 	for ; ai < len(args); ai++ {
-		out = append(out, "%!(EXTRA)"...)
+		out = append(out, verifMarkExtra...)
 	}
 	return out
 }
